@@ -56,13 +56,21 @@ pub enum Backoff {
     Exponential,
     Capped,
     Fn,
+    /// 900 us: less than a millisecond
+    SubMs,
+    /// 2.75 ms x 1.5^k: fractional milliseconds
+    Fractional,
 }
 
 impl Backoff {
-    /// configured delay (ms) before retry k (1-based): the layer asks the interval function for k-1
+    /// configured delay (ms, rounded *up*: virtual instants are whole milliseconds, so a gap
+    /// of g ms satisfies a configured delay d exactly when g >= ceil(d)) before retry k
+    /// (1-based): the layer asks the interval function for k-1
     fn delay(&self, k: usize) -> u64 {
         let a = (k - 1) as u32;
         match self {
+            Backoff::SubMs => 1,
+            Backoff::Fractional => (2.75f64 * 1.5f64.powi(a as i32) - 1e-9).ceil() as u64,
             Backoff::Zero => 0,
             Backoff::Fixed => 10,
             Backoff::Exponential => 10 * 2u64.pow(a),
@@ -110,6 +118,8 @@ pub fn build(cfg: &Cfg, shared: trv_core::inner::Shared) -> (Svc, Option<Arc<Rec
         Backoff::Exponential => b.exponential_backoff(Duration::from_millis(10)),
         Backoff::Capped => b.backoff(ExponentialBackoff::new(Duration::from_millis(10)).max_interval(Duration::from_millis(25))),
         Backoff::Fn => b.backoff(FnInterval::new(|a: usize| Duration::from_millis((a as u64 + 1) * 7))),
+        Backoff::SubMs => b.fixed_backoff(Duration::from_micros(900)),
+        Backoff::Fractional => b.backoff(ExponentialBackoff::new(Duration::from_micros(2750)).multiplier(1.5)),
     };
     if cfg.predicate {
         b = b.retry_on(|e: &InnerErr| e.kind == 0);
@@ -171,7 +181,7 @@ fn judge(cfg: &Cfg, max: usize, req_id: u32, w: &World, result: &Outcome, rec: O
         let gap = calls[k].start_ms - prev_end;
         let need = cfg.backoff.delay(k);
         if gap < need {
-            out.push(Viol::new("backoff_too_short", site, format!("retry {k} started {gap}ms after the previous attempt failed; configured backoff {need}ms")));
+            out.push(Viol::new("backoff_too_short", site, format!("retry {k} started {gap}ms after the previous attempt failed; configured backoff {need}ms (rounded up to whole milliseconds)")));
         }
     }
     if let Some(rec) = rec {
@@ -190,7 +200,7 @@ pub fn grid(tier: Tier) -> Vec<Cfg> {
     let mut v = vec![];
     for max_attempts in 0..=tier.pick(3usize, 4) {
         for per_request in [false, true] {
-            for backoff in [Backoff::Zero, Backoff::Fixed, Backoff::Exponential, Backoff::Capped, Backoff::Fn] {
+            for backoff in [Backoff::Zero, Backoff::Fixed, Backoff::Exponential, Backoff::Capped, Backoff::Fn, Backoff::SubMs, Backoff::Fractional] {
                 for predicate in [false, true] {
                     for budget in [BudgetKind::None, BudgetKind::Token(0), BudgetKind::Token(1), BudgetKind::Token(2), BudgetKind::Aimd] {
                         v.push(Cfg { max_attempts, per_request, backoff, predicate, budget });
